@@ -104,10 +104,11 @@ pub struct AsyncSender<T: Send> {
 pub struct AsyncReceiver<T: Send> {
   shared: Arc<MpmcShared<T>>,
   closed: AtomicBool,
-  /// Inline state flag for the `Stream` impl. A raw pointer to this field is stored
-  /// in `waiting_async_receivers` while the stream is parked. Eagerly unlinked on
-  /// drop / `to_sync` before the struct is freed.
-  pub(super) state: AtomicU8,
+  /// State flag for the `Stream` impl. A raw pointer to it is stored in
+  /// `waiting_async_receivers` while the stream is parked, and `AsyncReceiver` is `Unpin`
+  /// (it may be moved between polls), so the flag lives in its own allocation. Eagerly
+  /// unlinked on drop / `to_sync` before it is freed.
+  pub(super) state: Box<AtomicU8>,
   pub(super) is_registered: bool,
 }
 
@@ -173,7 +174,7 @@ pub fn bounded_async<T: Send>(capacity: usize) -> (AsyncSender<T>, AsyncReceiver
     AsyncReceiver {
       shared,
       closed: AtomicBool::new(false),
-      state: AtomicU8::new(STATE_WAITING),
+      state: Box::new(AtomicU8::new(STATE_WAITING)),
       is_registered: false,
     },
   )
@@ -226,7 +227,7 @@ impl<T: Send> Clone for AsyncReceiver<T> {
     AsyncReceiver {
       shared: Arc::clone(&self.shared),
       closed: AtomicBool::new(false),
-      state: AtomicU8::new(STATE_WAITING),
+      state: Box::new(AtomicU8::new(STATE_WAITING)),
       is_registered: false,
     }
   }
@@ -647,7 +648,7 @@ impl<T: Send> Receiver<T> {
     AsyncReceiver {
       shared,
       closed: AtomicBool::new(closed),
-      state: AtomicU8::new(STATE_WAITING),
+      state: Box::new(AtomicU8::new(STATE_WAITING)),
       is_registered: false,
     }
   }
@@ -1049,7 +1050,7 @@ impl<T: Send> AsyncReceiver<T> {
     // a closed handle stays closed across the conversion
     let closed = self.closed.load(Ordering::Relaxed);
     if self.is_registered {
-      let state_ptr = &self.state as *const AtomicU8;
+      let state_ptr = &*self.state as *const AtomicU8;
       if self
         .state
         .compare_exchange(
@@ -1071,7 +1072,10 @@ impl<T: Send> AsyncReceiver<T> {
       }
     }
     let shared = unsafe { std::ptr::read(&self.shared) };
-    mem::forget(self); // AtomicU8 has no destructor; safe to forget.
+    // The stream state is unlinked above; free its allocation (forget would leak it).
+    let state = unsafe { std::ptr::read(&self.state) };
+    mem::forget(self);
+    drop(state);
     Receiver {
       shared,
       closed: AtomicBool::new(closed),
@@ -1104,7 +1108,7 @@ impl<T: Send> Drop for AsyncReceiver<T> {
   fn drop(&mut self) {
     let _ = self.close();
     if self.is_registered {
-      let state_ptr = &self.state as *const AtomicU8;
+      let state_ptr = &*self.state as *const AtomicU8;
       if self
         .state
         .compare_exchange(
